@@ -134,6 +134,10 @@ func genC17(t *rapid.T) c17Case {
 		maxN = v
 	}
 	c.N = rapid.IntRange(8, maxN).Draw(t, "n")
+	if os.Getenv("VERIF_TIER") == "thorough" && os.Getenv("VERIF_C17_MAXN") == "" && rapid.IntRange(0, 24).Draw(t, "large") == 0 {
+		// the property's "N up to several thousand"
+		c.N = rapid.IntRange(1500, 5000).Draw(t, "nLarge")
+	}
 	c.RefsPer = rapid.IntRange(0, 8).Draw(t, "refsPer")
 	c.LogsPer = rapid.IntRange(0, 2).Draw(t, "logsPer")
 	if c.RefsPer+c.LogsPer == 0 {
@@ -321,6 +325,7 @@ func propC17(c c17Case, o *Obs) error {
 	}
 	o.ClassIf(!sameSize, "tables-not-identical-size(bounds-not-asserted)")
 	o.ClassIf(c.N >= 64, "N>=64")
+	o.ClassIf(c.N >= 1500, "N>=1500")
 	o.ClassIf(c.Rewrite > 0, "rewritten-names")
 	o.ClassIf(c.LogsPer > 0, "with-logs")
 	o.Count("adds", c.N)
